@@ -158,11 +158,11 @@ TEXT = {
  "C08": dict(technique="Coq proof over a disk-effect model (images at every crash point, restart function): durability and crash atomicity for all programs + point-in-time directory images at every request boundary and crash hook restarted on the real engine",
              level="Theorems about the disk model of the leveldb disk engine (definition files written as temp + rename, one leveldb directory per table, DeleteTable leaving its files): for all programs the server restarted on the image after an acknowledged request serves the acknowledged state, and the image at every crash point inside metadata persistence, create and clear restarts to the state before or after the request — with the exceptions refuted by witnesses and recorded as findings (BT-12 deleted tables reappear, BT-18 drop-family purge before persistence). Correspondence: real directory images at every request boundary and crash hook are started as second servers and compared with the model's restart; repeated restart cycles." + _CORR, note=_NOTE + " goleveldb recovery, rename atomicity and 'kill -9 = OS-level image' are assumptions; power loss is out of scope."),
  "C09": dict(technique="Coq proof (file-store walk model agrees with the memory-store walk on order-compatible name sets; refuted otherwise) + paired differential correspondence (both stores against their models) with a restart probe at request boundaries",
-             level="One handler model serves both stores and differs only in the listing walk (bytewise order vs filepath.Walk order with directory entries); theorems relate the two walks, and the order discrepancy (GCS-2) is refuted by a witness. Correspondence: each program runs on both real stores against the corresponding model; on the file store a fresh emulator instance on the same directory must answer like the running one at request boundaries; a sidecar-less content file must be served." + _CORR, note=_NOTE),
+             level="One handler model serves both stores and differs only in the listing walk (the file store's walk also meets the directory entries that lead to each name); theorems show that the two walks list the same for every delimiter, cursor, prefix and page size, hence that whole request histories are answered identically by both stores (the former filepath.Walk order, GCS-2, is kept as a refuted witness of what the repair changed). Correspondence: each program runs on both real stores against the corresponding model; on the file store a fresh emulator instance on the same directory must answer like the running one at request boundaries; a sidecar-less content file must be served." + _CORR, note=_NOTE),
  "C10": dict(technique="Coq invariant proof (generation counter monotone, metageneration laws) + differential correspondence on random histories, both stores",
              level="Theorems over all histories of the handler model with the store clock as a strictly increasing counter: every content write gets a generation above everything handed out before and metageneration 1; a patch bumps only metageneration; reads and failures change nothing." + _CORR, note=_NOTE + " Assumes the stores' wall clock strictly increases between successive writes."),
  "C11": dict(technique="Coq proof (pagination complete/duplicate-free/sorted for the memory store without delimiter; early-exit soundness) + exhaustive enumeration of name-universe subsets x prefixes x delimiters x page sizes with a whole-pagination oracle, both stores",
-             level="Theorems about the listing walk: with an ascending walk order the prefix abort and cursor skip lose nothing, a page is the first maxResults matching names, and following tokens yields every matching name exactly once in order (memory store, no delimiter). Delimiter pagination (GCS-1) and the file store's walk order (GCS-2) are refuted by witnesses and recorded as findings; the oracle still checks every complete pagination against the API semantics." + _CORR, note=_NOTE),
+             level="Theorems about the listing walk: with an ascending walk order the prefix abort and cursor skip lose nothing, a page is the first maxResults matching names, and following tokens yields every matching name exactly once in order (memory store, no delimiter). Delimiter pagination (GCS-1) is refuted by a witness and recorded as a finding (the file store's walk order, GCS-2, has been repaired); the oracle still checks every complete pagination against the API semantics." + _CORR, note=_NOTE),
  "C18": dict(technique="Coq proof over the interleaving model (scan = read-locked sections over one snapshot per range) + forced schedules at every hand-over of real multi-message scans, both leveldb engines",
              level="Theorems about the interleaving model of a ReadRows scan that gives up the table lock while streaming, for all schedules and any number of writers: every returned row is the row's value in the snapshot taken when its range scan started (a state that existed between scan start and end, never a mixture), rows come in strictly ascending order without duplicates, rows not written during the scan are returned as stored, and the scan ends OK. Correspondence: real scans spanning several messages are parked at every hand-over while writers, deleters and read-modify-writes act on rows before/at/after the scan position; every step and the returned rows are compared with the model." + _CORR, note=_NOTE + " goleveldb's snapshot guarantee, sync.RWMutex and the Go scheduler are assumptions; DropRowRange(all) under a parked scan is finding BT-17."),
  "C20": dict(technique="Coq proof (every error answer of both handler models leaves the stored data untouched) + oracle-judged structured perturbation of HTTP and gRPC requests, forced schedules, and concurrent mixes under the Go race detector",
